@@ -410,6 +410,11 @@ def cmd_check(pid, tier, only, jobs, job_filter):
     # 4. classify
     unknown = []
     known_lines = {}
+    # shortest witness first, so that the one kept per (subject, class) is the simplest
+    viols.sort(key=lambda vj: (vj[0]["subject"], vj[0]["class"], len(vj[0]["case"]), vj[0]["case"]))
+    counts = {}
+    for v, jr in viols:
+        counts[(v["subject"], v["class"])] = counts.get((v["subject"], v["class"]), 0) + v.get("count", 1)
     for v, jr in viols:
         k = match_known(known, v)
         if k is not None:
@@ -432,7 +437,7 @@ def cmd_check(pid, tier, only, jobs, job_filter):
             continue
         path = replay_path(pid, v, jr["run"], jr["job"])
         rep = {"property": pid, "tier": tier, "run": jr["run"], "job": jr["job"], "subject": v["subject"], "class": v["class"],
-               "case": v["case"], "detail": v["detail"], "count": v.get("count", 1),
+               "case": v["case"], "detail": v["detail"], "count": counts.get(key, v.get("count", 1)),
                "replay_cmd": "python3 check.py replay " + path}
         with open(path, "w") as f:
             json.dump(rep, f, indent=1)
